@@ -9,7 +9,13 @@ def run(tier):
         c18_grid.collect(ck, tier)
     except ImportError:
         ck.note('R18.1 grid part not available')
-    cfgs = corpus.corpus(tier)
+    cfgs = list(corpus.corpus(tier))
+    # the flavour with a nothrow move constructor but a throwing move assignment / swap: a helper whose
+    # noexcept looks at one of the two only is wrong exactly for it
+    C = corpus.Cfg
+    cfgs += [C('NA', 2, 4, 'std'), C('NA', 2, 2, 6), C('NA', 0, 2, 0)]
+    if tier == 'thorough':
+        cfgs += [C('NA', 4, 2, 14), C('NA', 2, 4, 'std', std='c++11'), C('NA', 2, 4, 5, std='c++20'), C('NA', 3, 3, 8)]
     res = corpus.run_over(cfgs, 'svlib.rules.ir_noexcept', 'analyse_tu')
     for r in res:
         if r['ok']:
